@@ -314,7 +314,7 @@ class MultivariateNormal(TMultivariateNormal, Distribution):
 
             # Reshape samples to be batch_size x num_dim x num_samples
             # or num_bim x num_samples
-            base_samples = base_samples.view(-1, *self.loc.shape[:-1], covar_root.shape[-1])
+            base_samples = base_samples.reshape(-1, *self.loc.shape[:-1], base_samples.shape[-1])
             base_samples = base_samples.permute(*range(1, self.loc.dim() + 1), 0)
 
             # Now reparameterize those base samples
